@@ -313,6 +313,15 @@ func (u *Unit) loadCell(st *State, c *Cell) Val {
 	}
 	if c.Sym || st.symCells[c.ID] {
 		v = u.freshVal(st, c.T, c.Name, c.Old && c.Sym)
+		if strings.HasPrefix(c.Name, "list") && u.P != nil && len(u.P.ElemInv) > 0 && u.binder == 0 {
+			if inv := u.P.ElemInv[types.TypeString(c.T, nil)]; inv != nil {
+				// data-structure invariant of list elements that come from
+				// outside the unit (inputs, results of contract calls)
+				st.cells[c.ID] = v
+				u.Assumed["A-ELEM: elements of lists of type []"+types.TypeString(c.T, nil)+" obtained from inputs or contract calls satisfy "+inv.Name()]++
+				u.assume(u.evalPure(st, inv, []Val{v}, nil).(*Term))
+			}
+		}
 	} else {
 		v = u.zeroVal(c.T)
 	}
